@@ -6,8 +6,23 @@ use std::collections::BTreeMap;
 use std::path::Path;
 
 use emmylua_code_analysis::{
-    DbIndex, EmmyLuaAnalysis, FileId, LuaMemberOwner, LuaSemanticDeclId, LuaType, LuaTypeOwner, RenderLevel, humanize_type,
+    DbIndex, EmmyLuaAnalysis, FileId, GlobalId, LuaMemberKey, LuaMemberOwner, LuaOperatorMetaMethod, LuaOperatorOwner, LuaSemanticDeclId,
+    LuaType, LuaTypeOwner, RenderLevel, humanize_type,
 };
+
+const META_METHODS: &[(&str, LuaOperatorMetaMethod)] = &[
+    ("add", LuaOperatorMetaMethod::Add),
+    ("sub", LuaOperatorMetaMethod::Sub),
+    ("mul", LuaOperatorMetaMethod::Mul),
+    ("div", LuaOperatorMetaMethod::Div),
+    ("unm", LuaOperatorMetaMethod::Unm),
+    ("concat", LuaOperatorMetaMethod::Concat),
+    ("len", LuaOperatorMetaMethod::Len),
+    ("eq", LuaOperatorMetaMethod::Eq),
+    ("lt", LuaOperatorMetaMethod::Lt),
+    ("index", LuaOperatorMetaMethod::Index),
+    ("call", LuaOperatorMetaMethod::Call),
+];
 use emmylua_parser::{LuaAstNode, LuaSyntaxKind, LuaTokenKind};
 use rowan::NodeOrToken;
 use tokio_util::sync::CancellationToken;
@@ -231,6 +246,13 @@ pub fn observe(analysis: &EmmyLuaAnalysis, root: &Path, opts: &ObserveOpts) -> O
                                     if let Some(desc) = &p.description {
                                         lines.push(format!("hoverdoc {rel}@{start} {text} :: {}", desc.replace('\n', " ")));
                                     }
+                                    let vis = format!("{:?}", p.visibility);
+                                    if vis != "Public" || p.deprecated.is_some() {
+                                        lines.push(format!(
+                                            "propflags {rel}@{start} {text} :: vis={vis} deprecated={}",
+                                            p.deprecated.as_ref().map(|d| format!("{d:?}")).unwrap_or_else(|| "-".into())
+                                        ));
+                                    }
                                 }
                             }
                         }
@@ -269,6 +291,28 @@ pub fn observe(analysis: &EmmyLuaAnalysis, root: &Path, opts: &ObserveOpts) -> O
             ));
         } else {
             lines.push(format!("module {rel} :: none"));
+        }
+        // ---- files this file requires
+        if let Some(deps) = db.get_file_dependencies_index().get_required_files(fid) {
+            let mut ds: Vec<String> = deps
+                .iter()
+                .map(|d| {
+                    // The edge belongs to the (live) requiring file and is only refreshed when that
+                    // file is re-analysed: a stale derived fact of a dependent, not a query result
+                    // that names the removed file, so it is rendered but not judged as dangling.
+                    if db.get_vfs().get_file_content(d).is_none() { "<removed>".to_string() } else { rel_of(db, root, *d) }
+                })
+                .collect();
+            ds.sort();
+            if !ds.is_empty() {
+                lines.push(format!("deps {rel} :: [{}]", ds.join(",")));
+            }
+        }
+        if let Some(ns) = db.get_type_index().get_file_namespace(fid) {
+            lines.push(format!("namespace {rel} :: {ns}"));
+        }
+        if let Some(us) = db.get_type_index().get_file_using_namespace(fid) {
+            lines.push(format!("using {rel} :: {}", us.join(",")));
         }
     }
 
@@ -311,6 +355,56 @@ pub fn observe(analysis: &EmmyLuaAnalysis, root: &Path, opts: &ObserveOpts) -> O
         }
         if let Some(alias) = decl.get_alias_ref() {
             tys.push(format!("typealias {} :: {}", decl.get_full_name(), render(db, alias)));
+        }
+        if let Some(gp) = db.get_type_index().get_generic_params(&id) {
+            let ps: Vec<String> = gp
+                .iter()
+                .map(|g| format!("{}{}", g.name, g.constraint.as_ref().map(|c| format!(":{}", render(db, c))).unwrap_or_default()))
+                .collect();
+            tys.push(format!("typegenerics {} :: <{}>", decl.get_full_name(), ps.join(",")));
+        }
+        {
+            let mut subs: Vec<String> = db.get_type_index().get_sub_types(&id).iter().map(|d| d.get_full_name().to_string()).collect();
+            subs.sort();
+            if !subs.is_empty() {
+                tys.push(format!("typesubs {} :: [{}]", decl.get_full_name(), subs.join(",")));
+            }
+        }
+        for (mname, mm) in META_METHODS {
+            if let Some(ops) = db.get_operator_index().get_operators(&LuaOperatorOwner::Type(id.clone()), *mm) {
+                let mut os: Vec<String> = ops
+                    .iter()
+                    .filter_map(|oid| db.get_operator_index().get_operator(oid))
+                    .map(|op| {
+                        if db.get_vfs().get_file_content(&op.get_file_id()).is_none() {
+                            dangling.push(format!("operator {mname} of {} in {}", decl.get_full_name(), rel_of(db, root, op.get_file_id())));
+                        }
+                        format!(
+                            "{}@{}:{}",
+                            render(db, &op.get_operator_func(db)),
+                            rel_of(db, root, op.get_file_id()),
+                            u32::from(op.get_range().start())
+                        )
+                    })
+                    .collect();
+                os.sort();
+                tys.push(format!("operator {}.{mname} :: [{}]", decl.get_full_name(), os.join(" ; ")));
+            }
+        }
+        if let Some(trefs) = db.get_reference_index().get_type_references(&id) {
+            let mut rs: Vec<String> = trefs
+                .iter()
+                .map(|r| {
+                    if db.get_vfs().get_file_content(&r.file_id).is_none() {
+                        dangling.push(format!("type-reference to {} in {}", decl.get_full_name(), rel_of(db, root, r.file_id)));
+                    }
+                    format!("{}:{}", rel_of(db, root, r.file_id), u32::from(r.value.start()))
+                })
+                .collect();
+            rs.sort();
+            if !rs.is_empty() {
+                tys.push(format!("trefs {} :: [{}]", decl.get_full_name(), rs.join(",")));
+            }
         }
         let owner = LuaMemberOwner::Type(id.clone());
         if let Some(members) = db.get_member_index().get_members(&owner) {
@@ -375,6 +469,86 @@ pub fn observe(analysis: &EmmyLuaAnalysis, root: &Path, opts: &ObserveOpts) -> O
                 .collect();
             rs.sort();
             lines.push(format!("grefs {name} :: [{}]", rs.join(",")));
+        }
+    }
+
+    // ---- members hanging off global paths (`Conf.level = 1` on a global table)
+    {
+        let mut gnames: Vec<String> = db
+            .get_global_index()
+            .get_all_global_decl_ids()
+            .iter()
+            .filter_map(|id| db.get_decl_index().get_decl(id).map(|d| d.get_name().to_string()))
+            .collect();
+        gnames.sort();
+        gnames.dedup();
+        let mut keys: std::collections::BTreeSet<String> = std::collections::BTreeSet::new();
+        for g in &gnames {
+            let owner = LuaMemberOwner::GlobalPath(GlobalId::new(g));
+            if let Some(members) = db.get_member_index().get_members(&owner) {
+                let mut ms: Vec<String> = members
+                    .iter()
+                    .map(|m| {
+                        if db.get_vfs().get_file_content(&m.get_file_id()).is_none() {
+                            dangling.push(format!("member {g}.{} in {}", m.get_key().to_path(), rel_of(db, root, m.get_file_id())));
+                        }
+                        keys.insert(m.get_key().to_path());
+                        let ty = db
+                            .get_type_index()
+                            .get_type_cache(&LuaTypeOwner::Member(m.get_id()))
+                            .map(|c| render(db, c.as_type()))
+                            .unwrap_or_else(|| "?".into());
+                        format!("gmember {g}.{} :: {ty} at {}:{}", m.get_key().to_path(), rel_of(db, root, m.get_file_id()), u32::from(m.get_range().start()))
+                    })
+                    .collect();
+                ms.sort();
+                lines.extend(ms);
+            }
+        }
+        // ---- index references (`x.key` expressions) of every member key seen on types / globals
+        for decl in db.get_type_index().get_all_types() {
+            if let Some(members) = db.get_member_index().get_members(&LuaMemberOwner::Type(decl.get_id())) {
+                for m in members {
+                    keys.insert(m.get_key().to_path());
+                }
+            }
+        }
+        for k in keys {
+            let key = LuaMemberKey::Name(k.as_str().into());
+            if let Some(refs) = db.get_reference_index().get_index_references(&key) {
+                let mut rs: Vec<String> = refs
+                    .iter()
+                    .map(|r| {
+                        if db.get_vfs().get_file_content(&r.file_id).is_none() {
+                            dangling.push(format!("index-reference to .{k} in {}", rel_of(db, root, r.file_id)));
+                        }
+                        format!("{}:{}", rel_of(db, root, r.file_id), u32::from(r.value.get_range().start()))
+                    })
+                    .collect();
+                rs.sort();
+                if !rs.is_empty() {
+                    lines.push(format!("irefs .{k} :: [{}]", rs.join(",")));
+                }
+            }
+        }
+    }
+
+    // ---- string references of the given require strings
+    for r in &opts.requires {
+        let mut rs: Vec<String> = db
+            .get_reference_index()
+            .get_string_references(r)
+            .iter()
+            .map(|x| {
+                if db.get_vfs().get_file_content(&x.file_id).is_none() {
+                    dangling.push(format!("string-reference to '{r}' in {}", rel_of(db, root, x.file_id)));
+                }
+                format!("{}:{}", rel_of(db, root, x.file_id), u32::from(x.value.start()))
+            })
+            .collect();
+        rs.sort();
+        if !rs.is_empty() {
+            lines.push(format!("srefs {r} :: [{}]", rs.join(",")));
         }
     }
 
